@@ -441,7 +441,8 @@ func (r *WordRenderer) cleanText(text string) string {
 func (r *WordRenderer) renderTable(node *extast.Table) (ast.WalkStatus, error) {
 	// 收集表格数据
 	var tableData [][]string
-	var alignments []extast.Alignment
+	// 列对齐方式属于整个表格（分隔行），没有数据行的表格也有对齐方式
+	alignments := node.Alignments
 	var emphases [][]int
 
 	// 遍历表头
